@@ -304,6 +304,8 @@ class ConvexSpheropolygon(Shape2D):
         old_centroid = self._polygon.centroid
         data = self.to_json(["vertices", "radius", "area"])
         hoomd_dict = _map_dict_keys(data, key_mapping=_hoomd_dict_mapping)
+        # Copy: the stored vertices are moved back below.
+        hoomd_dict["vertices"] = self.vertices.copy()
         hoomd_dict["centroid"] = [0, 0, 0]
 
         self._polygon.centroid = old_centroid
